@@ -31,7 +31,8 @@ type GateSpec struct {
 	Cfg   string // configuration (default "default")
 	Block string // same syntax as Sink: instructions that discharge a path (must-pass-through)
 	// Exact: a NEW must-pass gate of the sink is reported too (the accumulate-valid-inputs functions of
-	// recovery: an added skip condition refuses inputs that were accepted before)
+	// recovery: an added skip condition refuses inputs that were accepted before; likewise for bytes
+	// mixed into a seed and for default-deny initialisations)
 	Exact bool
 }
 
@@ -298,7 +299,7 @@ func CheckGates(c *Ctx, prop string, specs []GateSpec) {
 				}
 				if !known {
 					c.R.Bad("APO-EXACT", s.Func, fmt.Sprintf("sink=%s new gate fail_when=%v cond=%s", s.Sink, g.FailWhen, g.Cond), p.Pos(g.Pos),
-						"a new condition now excludes inputs from the accepted set of this recovery routine (valid shares may be refused)")
+						"a new condition now guards this sink: inputs that reached it before (valid shares of a recovery routine, bytes mixed into a seed, a default-deny initialisation) may now be left out")
 				}
 			}
 			c.R.Ok("APO-EXACT", s.Func, "sink="+s.Sink+" no new rejection condition", pos, "", true)
